@@ -7,7 +7,7 @@ use crate::refmodel::*;
 use crate::ensure;
 use owlchess::types::Color;
 use owlchess::verif as hook;
-use owlchess::Bitboard;
+use owlchess::{Bitboard, Board};
 use serde_json::{json, Value};
 
 fn bb_from_sqs(v: &[Sq]) -> u64 {
@@ -192,6 +192,193 @@ fn slider_driver(ctx: &RunCtx, stats: &mut Stats, rep: &mut Reporter) {
     });
 }
 
+// ---------------------------------------------------------------------------------------------
+// The same sweep through the public consumers of the tables (move generation and attack queries)
+
+const KNIGHT_D: [(i8, i8); 8] = [(1, 2), (2, 1), (2, -1), (1, -2), (-1, -2), (-2, -1), (-2, 1), (-1, 2)];
+
+fn full_rays(s: Sq, dirs: &[(i8, i8)]) -> Vec<Sq> {
+    let mut v = Vec::new();
+    for &(df, dr) in dirs {
+        let (mut f, mut r) = (file_of(s) + df, rank_of(s) + dr);
+        while let Some(t) = mk_sq(f, r) {
+            v.push(t);
+            f += df;
+            r += dr;
+        }
+    }
+    v
+}
+
+/// Deterministic king squares for (piece, square, flip): both off the relevant squares; the king of the side not to
+/// move off every line of the slider, not a knight's move away from any square that may hold a blocker of the
+/// slider's colour, and not next to the other king. None if no such pair exists.
+fn king_squares(s: Sq, piece: &str, flip: bool) -> Option<(Sq, Sq)> {
+    let rook_rel = if piece != "bishop" { relevant(s, &ROOK_D) } else { vec![] };
+    let bishop_rel = if piece != "rook" { relevant(s, &BISHOP_D) } else { vec![] };
+    let own_rel: &Vec<Sq> = if flip { &rook_rel } else { &bishop_rel };
+    let mut banned_enemy: Vec<Sq> = vec![s];
+    banned_enemy.extend(full_rays(s, &ROOK_D));
+    banned_enemy.extend(full_rays(s, &BISHOP_D));
+    for &o in own_rel {
+        banned_enemy.extend(KNIGHT_D.iter().filter_map(|(df, dr)| mk_sq(file_of(o) + df, rank_of(o) + dr)));
+        banned_enemy.push(o);
+    }
+    banned_enemy.extend(rook_rel.iter().chain(bishop_rel.iter()));
+    let k2 = (0..64u8).rev().find(|t| !banned_enemy.contains(t))?;
+    let k1 = (0..64u8).find(|t| {
+        *t != s && *t != k2 && !rook_rel.contains(t) && !bishop_rel.contains(t)
+            && (file_of(*t) - file_of(k2)).abs().max((rank_of(*t) - rank_of(k2)).abs()) > 1
+    })?;
+    Some((k1, k2))
+}
+
+/// One (piece, square, blocker subset) as a position: the slider belongs to the side to move, blockers are knights
+/// (own colour on the diagonal rays and the other colour on the straight rays, or the reverse with `flip`), two kings
+/// off the relevant squares. The slider's generated destinations and the attack queries must equal ray walking.
+fn api_check(case: &Value, stats: &mut Stats) -> CheckResult {
+    use owlchess::movegen::{cell_attackers, is_cell_attacked, semilegal};
+    let s = case["sq"].as_u64().unwrap_or(0) as u8 % 64;
+    let piece = case["piece"].as_str().unwrap_or("queen");
+    let flip = case["flip"].as_bool().unwrap_or(false);
+    let white = case["white"].as_bool().unwrap_or(true);
+    let sub = u64::from_str_radix(case["occ"].as_str().unwrap_or("0").trim_start_matches("0x"), 16).unwrap_or(0);
+    let (me, other) = if white { (Col::W, Col::B) } else { (Col::B, Col::W) };
+    let pc = match piece {
+        "rook" => Pc::R,
+        "bishop" => Pc::B,
+        _ => Pc::Q,
+    };
+    let Some((k1, k2)) = king_squares(s, piece, flip) else {
+        stats.skip("no_king_squares");
+        return Ok(());
+    };
+    let mut p = RefPos::empty();
+    p.side = me;
+    p.b[s as usize] = Some((me, pc));
+    p.b[k1 as usize] = Some((me, Pc::K));
+    p.b[k2 as usize] = Some((other, Pc::K));
+    let mut dirs: Vec<(i8, i8)> = Vec::new();
+    let mut blockers = 0;
+    if pc != Pc::B {
+        dirs.extend(ROOK_D);
+        for t in relevant(s, &ROOK_D) {
+            if sub >> sq_to_lib(t).index() & 1 == 1 {
+                p.b[t as usize] = Some((if flip { me } else { other }, Pc::N));
+                blockers += 1;
+            }
+        }
+    }
+    if pc != Pc::R {
+        dirs.extend(BISHOP_D);
+        for t in relevant(s, &BISHOP_D) {
+            if sub >> sq_to_lib(t).index() & 1 == 1 {
+                p.b[t as usize] = Some((if flip { other } else { me }, Pc::N));
+                blockers += 1;
+            }
+        }
+    }
+    ensure!(p.is_valid(), "harness: constructed position is not valid: {}", p.fen());
+    let b = match Board::try_from(raw_from_ref(&p)) {
+        Ok(b) => b,
+        Err(_) => {
+            stats.skip("gate_rejected_reference_valid_position");
+            return Ok(());
+        }
+    };
+    let mut occ = 0u64;
+    let mut own = 0u64;
+    for t in 0..64u8 {
+        if let Some((c, _)) = p.b[t as usize] {
+            occ |= 1u64 << sq_to_lib(t).index();
+            if c == me {
+                own |= 1u64 << sq_to_lib(t).index();
+            }
+        }
+    }
+    let want = slide(s, occ, &dirs);
+    let mut got = 0u64;
+    for m in semilegal::gen_all(&b).iter() {
+        if sq_from_lib(m.src()) == s {
+            let bit = 1u64 << m.dst().index();
+            ensure!(got & bit == 0, "{}: destination {} generated twice for the {} on {}", p.fen(), m.dst(), piece, sq_name(s));
+            got |= bit;
+        }
+    }
+    ensure!(got == want & !own, "{}: semilegal destinations of the {} on {} are {:#x}, ray walking gives {:#x}", p.fen(), piece, sq_name(s), got, want & !own);
+    let mut legal = 0u64;
+    for m in owlchess::movegen::legal::gen_all(&b).iter() {
+        if sq_from_lib(m.src()) == s {
+            legal |= 1u64 << m.dst().index();
+        }
+    }
+    ensure!(legal & !got == 0, "{}: legal destinations {:#x} of the {} on {} outside ray walking {:#x}", p.fen(), legal, piece, sq_name(s), want & !own);
+    let sbit = 1u64 << sq_to_lib(s).index();
+    for t in 0..64u8 {
+        let c = sq_to_lib(t);
+        let att = cell_attackers(&b, c, col_to_lib(me)).as_raw();
+        let w = want >> c.index() & 1 == 1;
+        ensure!((att & sbit != 0) == w, "{}: cell_attackers({}) {} the {} on {}, ray walking says {}", p.fen(), sq_name(t),
+            if att & sbit != 0 { "contains" } else { "does not contain" }, piece, sq_name(s), w);
+        if w {
+            ensure!(is_cell_attacked(&b, c, col_to_lib(me)), "{}: is_cell_attacked({}) is false but the {} on {} attacks it", p.fen(), sq_name(t), piece, sq_name(s));
+        }
+    }
+    stats.label(piece);
+    if blockers > 0 {
+        stats.nontrivial(&(s, pc as u8, sub, flip, white));
+    }
+    Ok(())
+}
+
+fn api_driver(ctx: &RunCtx, stats: &mut Stats, rep: &mut Reporter) {
+    let thorough = ctx.tier != Tier::Quick;
+    // work items: 16 slices of the subset space of every (piece, square)
+    par_chunks(16 * 192, stats, rep, |range, st, fails| {
+        for i in range {
+            let slice = i / 192;
+            let piece = ["bishop", "rook", "queen"][(i % 192 / 64) as usize];
+            let s = (i % 64) as u8;
+            let mut rel: Vec<Sq> = Vec::new();
+            if piece != "bishop" {
+                rel.extend(relevant(s, &ROOK_D));
+            }
+            if piece != "rook" {
+                rel.extend(relevant(s, &BISHOP_D));
+            }
+            let total = 1u64 << rel.len();
+            let (lo, hi) = (slice * total / 16, (slice + 1) * total / 16);
+            for sub in lo..hi {
+                let mut occ = 0u64;
+                for (j, t) in rel.iter().enumerate() {
+                    if sub >> j & 1 == 1 {
+                        occ |= 1u64 << sq_to_lib(*t).index();
+                    }
+                }
+                // quick: sliders of one piece kind on all four (flip, colour) variants except the queen, which takes the
+                // variant selected by the parity of the subset; thorough: everything on all four
+                let variants: Vec<(bool, bool)> = if thorough || piece != "queen" {
+                    vec![(false, true), (false, false), (true, true), (true, false)]
+                } else {
+                    let h = (sub ^ sub >> 7 ^ s as u64) & 3;
+                    vec![(h & 1 == 1, h & 2 == 2)]
+                };
+                for (flip, white) in variants {
+                    let case = json!({"piece": piece, "sq": s, "occ": format!("{:#x}", occ), "flip": flip, "white": white});
+                    if let Err(f) = guarded("C15", "slider_subsets_through_public_api", api_check, &case, st) {
+                        if fails.len() < 4 {
+                            fails.push((case, f));
+                        }
+                    }
+                }
+            }
+            if slice == 0 {
+                st.add(&format!("{}_subsets", piece), total);
+            }
+        }
+    });
+}
+
 /// Random full 64-bit occupancies (generated): independence from irrelevant bits, sampled.
 fn gen_slider_case(cur: &mut crate::gen::Cursor) -> Value {
     let s = cur.below(64);
@@ -223,6 +410,7 @@ pub fn property() -> Property {
             SubCheck { name: "leapers_and_pawns", driver: Driver::Custom { run: leaper_driver }, check: leaper_check, configs: Configs::Both, required: &[], regressions: &[], exhaustive: true },
             SubCheck { name: "between_and_alignment", driver: Driver::Custom { run: pair_driver }, check: pair_check, configs: Configs::Both, required: &[], regressions: &[], exhaustive: true },
             SubCheck { name: "slider_subsets", driver: Driver::Custom { run: slider_driver }, check: slider_check, configs: Configs::Both, required: &[], regressions: &[], exhaustive: true },
+            SubCheck { name: "slider_subsets_through_public_api", driver: Driver::Custom { run: api_driver }, check: api_check, configs: Configs::ReleaseOnly, required: &["bishop", "rook", "queen"], regressions: &[], exhaustive: true },
             SubCheck {
                 name: "slider_random_occupancies",
                 driver: Driver::Generated { gen: gen_slider_case, genome_len: 48, quick: 30_000_000, thorough: 300_000_000 },
